@@ -97,6 +97,8 @@ SO_Q = dict(S("search-off", "off", 48, 3), driver="search:6")
 SB_Q = S("search-budget", "budget", 24, 2, extra=["--step", 1, "--maxcases", 120])
 SS_Q = S("search-stop", "stop", 24, 2, extra=["--step", 3, "--maxcases", 120])
 SK_Q = S("search-keep", "keep", 48, 3)
+SC_Q = S("search-clock", "clock", 24, 2, extra=["--maxcases", 100])
+SC_T = S("search-clock", "clock", 160, 3, extra=["--maxcases", 1200])
 SP_T = S("search-plain", "plain", 400, 4, extra=["--repeat", 2])
 SO_T = dict(S("search-off", "off", 480, 4), driver="search:12")
 SB_T = S("search-budget", "budget", 160, 3, extra=["--step", 1, "--maxcases", 1500])
@@ -118,7 +120,7 @@ PROPS["C14"] = {
 PROPS["C13"] = {
     "module": "RCE.Props.C13",
     "theorems": ["RCE.Props.C13.writes_only_complete", "RCE.Props.C13.no_nodes_after_abort", "RCE.Props.C13.abortCheck_interrupts"],
-    "streams": {"quick": [SB_Q, SS_Q], "thorough": [SB_T, SS_T, SK_T]},
+    "streams": {"quick": [SB_Q, SS_Q, SC_Q], "thorough": [SB_T, SS_T, SC_T, SK_T]},
     "eval_key": "cases", "distinct_key": "distinct_cases",
     "exhaustive": {"quick": False, "thorough": False},
     "rule": SEARCH_RULE + "; for C13: for each position the full search is sized first, then re-run under EVERY node budget 1..N+1 (or every k-th when N exceeds the case cap) and with a stop "
@@ -130,7 +132,7 @@ PROPS["C13"] = {
 PROPS["C11"] = {
     "module": "RCE.Props.C11",
     "theorems": ["RCE.Props.C11.ab_eq_negamax", "RCE.Props.C11.ref_root_value_eq", "RCE.Props.C11.ref_root_move_value_eq"],
-    "streams": {"quick": [SO_Q], "thorough": [SO_T]},
+    "streams": {"quick": [SO_Q, dict(S("search-mateoff", "mateoff", 160, 4), driver="search:0")], "thorough": [SO_T, dict(S("search-mateoff", "mateoff", 3200, 5), driver="search:0")]},
     "eval_key": "cases", "distinct_key": "distinct_cases",
     "rule": SEARCH_RULE + "; for C11: cache neutralised by the hook, no limits; the root score read from info.best_score and the value of the chosen move are compared with a reference "
             "minimax (textbook fail-soft alpha-beta, no ordering heuristics beyond a static capture sort, no cache, no null windows) over the model's game, and for small depths with the "
@@ -154,7 +156,7 @@ PROPS["C09"] = {
     "module": "RCE.Props.C09",
     "theorems": ["RCE.Props.C09.one_legal_bestmove", "RCE.Props.C09.ply_restored", "RCE.Props.C09.chess_bestmove_legal_by_the_rules",
                  "RCE.Props.C09.chess_eval_bounded", "RCE.Props.C09.chess_go_answers_a_legal_move"],
-    "streams": {"quick": [SP_Q, SB_Q, SS_Q], "thorough": [SP_T, SB_T, SS_T]},
+    "streams": {"quick": [SP_Q, SB_Q, SS_Q, SC_Q], "thorough": [SP_T, SB_T, SS_T, SC_T]},
     "eval_key": "cases", "distinct_key": "distinct_cases",
     "rule": SEARCH_RULE + "; for C09: exactly one bestmove line per search, the move must be legal in the rules spec's position, no panic of the search, under every node budget and stop point "
             "(incl. budgets 1 and 2 where the first iteration is interrupted and the fallback move is used); the process-level part drives the real binary with limit mixes "
